@@ -34,6 +34,9 @@ pub trait Prims {
     fn p384_verify(pk: &[u8; 49], msg: &[u8], sig: &[u8; 96]) -> bool;
     /// RSASSA-PSS SHA-384 / MGF1-SHA-384 / salt 48 over `msg`, public key as SPKI DER
     fn rsa_pss_verify(spki_der: &[u8], msg: &[u8], sig: &[u8]) -> bool;
+    /// independent signers (used to build specification-conforming tokens the library must accept)
+    fn p384_sign(sk: &[u8; 48], msg: &[u8]) -> Option<[u8; 96]>;
+    fn rsa_pss_sign(pkcs1_der: &[u8], msg: &[u8]) -> Option<Vec<u8>>;
 }
 
 // ---- family-independent helpers ---------------------------------------------------------------
@@ -302,6 +305,19 @@ impl Prims for Rc {
         let Ok(s) = rsa::pss::Signature::try_from(sig) else { return false };
         vk.verify(msg, &s).is_ok()
     }
+    fn p384_sign(sk: &[u8; 48], msg: &[u8]) -> Option<[u8; 96]> {
+        use p384::ecdsa::signature::Signer;
+        let k = p384::ecdsa::SigningKey::from_slice(sk).ok()?;
+        let s: p384::ecdsa::Signature = k.sign(msg);
+        s.to_bytes().as_slice().try_into().ok()
+    }
+    fn rsa_pss_sign(pkcs1_der: &[u8], msg: &[u8]) -> Option<Vec<u8>> {
+        use rsa::pkcs1::DecodeRsaPrivateKey;
+        use rsa::signature::{RandomizedSigner, SignatureEncoding};
+        let k = rsa::RsaPrivateKey::from_pkcs1_der(pkcs1_der).ok()?;
+        let sk = rsa::pss::SigningKey::<sha2::Sha384>::new(k);
+        Some(sk.try_sign_with_rng(&mut rsa::rand_core::OsRng, msg).ok()?.to_vec())
+    }
 }
 
 // ---- FFI family: aws-lc-rs + libsodium ------------------------------------------------------------
@@ -446,5 +462,20 @@ impl Prims for Ffi {
         let Ok(k) = rsa::RsaPublicKey::from_public_key_der(spki_der) else { return false };
         let Ok(p1) = k.to_pkcs1_der() else { return false };
         UnparsedPublicKey::new(&RSA_PSS_2048_8192_SHA384, p1.as_bytes()).verify(msg, sig).is_ok()
+    }
+    fn p384_sign(sk: &[u8; 48], msg: &[u8]) -> Option<[u8; 96]> {
+        use aws_lc_rs::signature::{ECDSA_P384_SHA384_FIXED_SIGNING, EcdsaKeyPair};
+        let pk = Self::p384_pk(sk)?;
+        let u = p384_decompress(&pk)?;
+        let kp = EcdsaKeyPair::from_private_key_and_public_key(&ECDSA_P384_SHA384_FIXED_SIGNING, sk, &u).ok()?;
+        let sig = kp.sign(&aws_lc_rs::rand::SystemRandom::new(), msg).ok()?;
+        sig.as_ref().try_into().ok()
+    }
+    fn rsa_pss_sign(pkcs1_der: &[u8], msg: &[u8]) -> Option<Vec<u8>> {
+        use aws_lc_rs::signature::{RSA_PSS_SHA384, RsaKeyPair};
+        let kp = RsaKeyPair::from_der(pkcs1_der).ok()?;
+        let mut sig = vec![0u8; kp.public_modulus_len()];
+        kp.sign(&RSA_PSS_SHA384, &aws_lc_rs::rand::SystemRandom::new(), msg, &mut sig).ok()?;
+        Some(sig)
     }
 }
